@@ -260,6 +260,17 @@ fn test(case: &Case, st: &mut Stats, counting: bool, handle_io: bool) -> CaseRes
 }
 
 pub fn replay(v: &Value) -> CaseResult {
+    if v.get("kind").and_then(|k| k.as_str()) == Some("c20-async") {
+        let case = AsyncCase {
+            cfg: Cfg::from_json(v.get("cfg").unwrap_or(&Value::Null)).unwrap_or(Cfg::Mem),
+            pool_sel: v.get("pool_sel").and_then(|x| x.as_u64()).unwrap_or(0) as u8,
+            prepop: v.get("prepop").and_then(|x| x.as_array()).map(|a| a.iter().filter_map(entry_from_json).collect()).unwrap_or_default(),
+            target: v.get("target").and_then(|x| x.as_u64()).unwrap_or(0) as u8,
+            plan_seed: v.get("plan_seed").and_then(|x| x.as_str()).and_then(|x| x.parse().ok()).unwrap_or(0),
+        };
+        let mut st = Stats::default();
+        return crate::asyncfs::with_stdout_silenced(|| test_async(&case, &mut st, false));
+    }
     let base = HistCase::from_json(v.get("case").unwrap_or(&Value::Null)).ok_or_else(|| Failure { message: "unparsable C20 replay".into(), replay: v.clone() })?;
     let targets = v.get("targets").and_then(|x| x.as_array()).map(|a| a.iter().filter_map(rawop_from_json).collect()).unwrap_or_default();
     let handle_io = v.get("handle_io").and_then(|x| x.as_bool()).unwrap_or(false);
@@ -267,7 +278,127 @@ pub fn replay(v: &Value) -> CaseResult {
     test(&Case { base, targets }, &mut st, false, handle_io)
 }
 
-const RULE: &str = "stacks (plain backend, altroot, overlay with 1..3 layers incl. altroot/overlay layers, altroot over overlay, overlay on sub-paths) with EVERY leaf backend wrapped in FaultFS; a generated history of <=12 ops establishes a state, then 1..2 target ops (biased to create_dir_all, remove_dir_all, copy/move file/dir, walk_dir, read_to_string, plus adapter primitives and observers) are run: first fault-free on a replica to count the N trait calls reaching any leaf and to record result R* and post-state S*, then for EVERY k<N (cap 400) on a fresh replica rebuilt by deterministic replay with the k-th call failing with an I/O error (a second pass also counts and fails the reads/writes on file handles handed out by the wrapped filesystems); oracle per injection: no panic, lower overlay layers unchanged, and if the faulted run returns Ok then R* is Ok, the value equals R* and the tree observed with faults disarmed equals S*, and a fixed list of fault-free follow-up calls on the target, its destination and their parents has the same outcomes and leaves the same trees as after a fault-free run (state hidden behind a right-looking listing); evaluations = injections; non-trivial = injection at k>=1 into a target making >=2 underlying calls, distinct by (stack, target, k)";
+const RULE: &str = "stacks (plain backend, altroot, overlay with 1..3 layers incl. altroot/overlay layers, altroot over overlay, overlay on sub-paths) with EVERY leaf backend wrapped in FaultFS; a generated history of <=12 ops establishes a state, then 1..2 target ops (biased to create_dir_all, remove_dir_all, copy/move file/dir, walk_dir, read_to_string, plus adapter primitives and observers) are run: first fault-free on a replica to count the N trait calls reaching any leaf and to record result R* and post-state S*, then for EVERY k<N (cap 400) on a fresh replica rebuilt by deterministic replay with the k-th call failing with an I/O error (a second pass also counts and fails the reads/writes on file handles handed out by the wrapped filesystems); oracle per injection: no panic, lower overlay layers unchanged, and if the faulted run returns Ok then R* is Ok, the value equals R* and the tree observed with faults disarmed equals S*, and a fixed list of fault-free follow-up calls on the target, its destination and their parents has the same outcomes and leaves the same trees as after a fault-free run (state hidden behind a right-looking listing); PLUS the same enumeration on the async port: memory-backed stacks with every leaf behind PendFS (Pending returns per a generated plan, then the k-th trait call fails), targets walk_dir / copy_dir / move_dir / remove_dir_all / copy_file / create_dir_all, every k < N (cap 250): Ok only with the fault-free value and tree; evaluations = injections; non-trivial = injection at k>=1 into a target making >=2 underlying calls, distinct by (stack, target, k)";
+
+// ---------------------------------------------------------------------------------------------
+// the same enumeration on the async port (faults injected by PendFS after its Pending returns)
+// ---------------------------------------------------------------------------------------------
+
+#[derive(Clone, Debug)]
+pub struct AsyncCase {
+    pub cfg: Cfg,
+    pub pool_sel: u8,
+    pub prepop: Vec<RawEntry>,
+    pub target: u8,
+    pub plan_seed: u64,
+}
+
+fn async_strategy() -> impl Strategy<Value = AsyncCase> {
+    let cfgs = prop_oneof![
+        3 => Just(Cfg::Mem),
+        1 => Just(Cfg::Alt(Box::new(Cfg::Mem), 1)),
+        3 => Just(Cfg::Ovl(vec![Cfg::Mem, Cfg::Mem])),
+        1 => Just(Cfg::Ovl(vec![Cfg::Mem, Cfg::Mem, Cfg::Mem])),
+        1 => Just(Cfg::OvlSub(Box::new(Cfg::Mem), 2)),
+    ];
+    (cfgs, any::<u8>(), prepop_strategy(10), 0u8..10, any::<u64>()).prop_map(|(cfg, pool_sel, prepop, target, plan_seed)| AsyncCase { cfg, pool_sel, prepop, target, plan_seed })
+}
+
+fn async_case_json(c: &AsyncCase) -> Value {
+    json!({"kind": "c20-async", "cfg": c.cfg.to_json(), "pool_sel": c.pool_sel, "prepop": c.prepop.iter().map(entry_to_json).collect::<Vec<_>>(), "target": c.target, "plan_seed": c.plan_seed.to_string()})
+}
+
+fn test_async(case: &AsyncCase, st: &mut Stats, counting: bool) -> CaseResult {
+    use crate::asyncfs::*;
+    let pools: [&[&str]; 3] = [&["a", "b", "c"], &["a", "ab", "ü"], &["d", "e.f", "a"]];
+    let pool: Vec<String> = pools[(case.pool_sel % 3) as usize].iter().map(|s| s.to_string()).collect();
+    let nlayers = case.cfg.overlay_layers().max(1);
+    let mut prepop = make_prepop(&case.prepop, &pool, 3, nlayers);
+    // a guaranteed two-level source directory
+    prepop.push((nlayers - 1, "/src/sub/deep".to_string(), Node::File(std::sync::Arc::new(b"deep".to_vec()))));
+    prepop.push((0, "/src/top".to_string(), Node::File(std::sync::Arc::new(b"top".to_vec()))));
+    let target = match case.target {
+        0 | 1 => Op::WalkDir(String::new()),
+        2 => Op::WalkDir("/src".into()),
+        3 | 4 => Op::CopyDir("/src".into(), "/dst".into()),
+        5 | 6 => Op::MoveDir("/src".into(), "/dst".into()),
+        7 => Op::RemoveDirAll("/src".into()),
+        8 => Op::CopyFile("/src/sub/deep".into(), "/copy".into()),
+        _ => Op::CreateDirAll("/src/sub/x/y".into()),
+    };
+    let runtime = tokio::runtime::Builder::new_current_thread().build().unwrap();
+    let mut injections = 0u64;
+    let res: Result<(), (String, i64)> = runtime.block_on(async {
+        let e0 = |m: String| (m, -1i64);
+        let plan0 = PendPlan::new(case.plan_seed);
+        let a0 = abuild(&case.cfg, &prepop, Some(plan0.clone())).await.map_err(e0)?;
+        plan0.arm(-1);
+        let out_star = aexec(&a0.root, &target).await;
+        let n = plan0.disarm();
+        let s_star = asnapshot(&a0.root).await.tree;
+        if let Outcome::Panic(m) = &out_star {
+            return Err((format!("{} panicked without any fault: {}", target.render(), m), -1));
+        }
+        for k in 0..n.min(250) as i64 {
+            let plan = PendPlan::new(case.plan_seed);
+            let ak = abuild(&case.cfg, &prepop, Some(plan.clone())).await.map_err(e0)?;
+            plan.arm(k);
+            let out = futures::FutureExt::catch_unwind(std::panic::AssertUnwindSafe(aexec(&ak.root, &target))).await;
+            plan.disarm();
+            injections += 1;
+            let fired = plan.fired.lock().unwrap().clone();
+            let desc = format!("async {} with underlying call #{} ({}) failing", target.render(), k, fired.clone().unwrap_or_else(|| "not reached".into()));
+            match out {
+                Err(_) => return Err((format!("{}: PANIC", desc), k)),
+                Ok(Outcome::Panic(m)) => return Err((format!("{}: PANIC {}", desc, m), k)),
+                Ok(Outcome::Err(_)) => {}
+                Ok(Outcome::Ok(v)) => {
+                    if fired.is_none() {
+                        continue;
+                    }
+                    match &out_star {
+                        Outcome::Ok(v_star) => {
+                            let same = match (&v, v_star) {
+                                (Val::Walk(a), Val::Walk(b)) => {
+                                    let (mut a, mut b) = (a.clone(), b.clone());
+                                    a.sort();
+                                    b.sort();
+                                    a == b
+                                }
+                                _ => &v == v_star,
+                            };
+                            if !same {
+                                return Err((format!("{}: returned Ok({}) but the fault-free result is Ok({})", desc, render_val(&v), render_val(v_star)), k));
+                            }
+                        }
+                        other => return Err((format!("{}: returned Ok although the fault-free run gives {}", desc, other.render()), k)),
+                    }
+                    let s = asnapshot(&ak.root).await.tree;
+                    if s != s_star {
+                        return Err((format!("{}: reported success but the effect is partial or wrong: {:?}", desc, diff_trees(&s_star, &s)), k));
+                    }
+                }
+            }
+        }
+        Ok(())
+    });
+    drop(runtime);
+    match res {
+        Err((m, k)) => {
+            let mut r = async_case_json(case);
+            r["k"] = json!(k);
+            Err(Failure { message: format!("stack {} (async, every leaf behind PendFS): {}", case.cfg.render(), m), replay: r })
+        }
+        Ok(()) => {
+            if counting {
+                st.evaluations += injections.saturating_sub(1);
+                st.label_n("async_fault_injections", injections);
+                st.label(&format!("async_target:{}", target.kind()));
+            }
+            Ok(())
+        }
+    }
+}
 
 pub fn run(ctx: &RunCtx) -> i32 {
     let reg = crate::regress::run_for(&ctx.id, &replay);
@@ -282,6 +413,11 @@ pub fn run(ctx: &RunCtx) -> i32 {
         let (s2, f2) = run_sharded(ctx, "faults-io", ctx.tier.pick(800, 30_000), strategy, |c, st, counting| test(c, st, counting, true));
         stats.merge(s2);
         failure = f2;
+    }
+    if failure.is_none() {
+        let (s3, f3) = crate::asyncfs::with_stdout_silenced(|| run_sharded(ctx, "faults-async", ctx.tier.pick(300, 8000), async_strategy, test_async));
+        stats.merge(s3);
+        failure = f3;
     }
     write_evidence(
         ctx,
